@@ -26,7 +26,8 @@ BASE = [
 ]
 
 
-KINDS = ["comment", "string", "first", "last", "identifier-adjacent", "two", "comments-only", "docstring-only"]
+KINDS = ["comment", "string", "first", "last", "identifier-adjacent", "two", "comments-only", "docstring-only", "fstring", "fstring-triple",
+         "bytes-free-continuation"]
 
 
 def with_bidi(rng, kind=None):
@@ -44,6 +45,12 @@ def with_bidi(rng, kind=None):
         src = "# licence header\n# note %s here\n\n" % ch
     elif kind == "docstring-only":
         src = '"""module %s docstring"""\n' % ch
+    elif kind == "fstring":
+        src = "zz_l = 1\nzz_m = f'none%s{zz_l} tail'\nassert zz_m\n" % ch
+    elif kind == "fstring-triple":
+        src = "zz_l = 1\nzz_m = f\'\'\'first {zz_l}\nsecond%s line {zz_l!r:>4}\n\'\'\'\n" % ch
+    elif kind == "bytes-free-continuation":
+        src = "zz_a = 1 + \\\n    2  # %s\nzz_b = (zz_a,\n        'x%sy')\n" % (ch, ch)
     elif kind == "identifier-adjacent":
         src = "def f(a):\n    return a  #%s\nf(1)\n" % ch
     else:
